@@ -20,6 +20,8 @@ def run_case(ctx, idx, rng, tier):
     mon = TilingMonitor(ctx)
     r = prog.Runner(ctx, dev, reg, [mon])
     g = gen.ProgGen(rng, dev, reg, r.chspecs, bad=0.05, big=rng.random() < 0.2)
+    if idx % 3 == 2:
+        g.frac_delay_p = 0.3  # delay(31.4, ch): accepted (castable to int); every boundary still is a whole clock multiple
     if idx % 4 == 1:
         g.odd_names = rng.sample(["", "0", "None", " "], 2)  # names the API accepts but that are falsy / ambiguous
     for _ in range(rng.randint(6, 36)):
